@@ -288,6 +288,118 @@ def rule_fresh_regions(ctx, res):
                   'every write, not cached on the game', '')
 
 
+def rule_evaluated(ctx, res, f, why):
+    """write_cart_data is written in a form the row extraction cannot read:
+    evaluate the whole method (absint/cx.py) on a game whose five regions and
+    whose data are symbolic bytes, for every (start, end) pair taken from the
+    region bounds +-2 and a few interior points, and compare every byte of
+    every region with the specification"""
+    from ..absint import cx as CX
+    from ..absint.symx import BV
+    cxi = CX.Cx(ctx.model, ctx.consts)
+    G = f.cls
+    secs = {'gfx': 'pico8.gfx.gfx:Gfx', 'map': 'pico8.map.map:Map',
+            'gff': 'pico8.gff.gff:Gff', 'music': 'pico8.music.music:Music',
+            'sfx': 'pico8.sfx.sfx:Sfx'}
+    total = ref.DATA_END
+    mem = {n: [BV.source(('mem', n, k), 8) for k in range(b - a)]
+           for (n, a, b) in ref.MEMORY_MAP}
+    import operator
+    data_all = [BV.source(('data', k), 8) for k in range(total + 3)]
+
+    def same(xs, ys):
+        return len(xs) == len(ys) and all(map(operator.is_, xs, ys))
+    pts = {0, 1, total, total + 1}
+    for (_n, a, b) in ref.MEMORY_MAP:
+        for k in (a, b):
+            pts |= {k - 1, k, k + 1}
+        pts.add((a + b) // 2)
+    pts = sorted(x for x in pts if 0 <= x <= total + 2)
+    pairs = [(s, e) for s in pts for e in pts if s <= e]
+    bad = None
+    bad_reject = None
+    n = 0
+    try:
+        for (s, e) in pairs:
+            n += 1
+            L = e - s
+            data = data_all[:L]
+            state = {}
+
+            def go():
+                g = CX.Obj(G)
+                for nm, q in secs.items():
+                    o = CX.Obj(ctx.model.cls(q))
+                    o.attrs['_data'] = CX.Seq('bytearray', list(mem[nm]))
+                    o.attrs['_version'] = 8
+                    g.attrs[nm] = o
+                state['g'] = g
+                return cxi.call(cxi.getattr(g, 'write_cart_data'),
+                                [CX.Seq('bytes', list(data)), s], {})
+            paths = cxi.explore(go)
+            if len(paths) != 1 or paths[0][0]:
+                raise CX.CxError('write_cart_data branches on data bytes')
+            kind, val = paths[0][1]
+            g = state['g']
+            changed = any(not same(g.attrs[nm].attrs['_data'].items,
+                                   mem[nm]) for nm in secs)
+            if (kind == 'raise') != (e > total) or (kind == 'raise' and
+                                                    changed):
+                if bad_reject is None:
+                    bad_reject = (s, L, kind, val.tname if kind == 'raise'
+                                  else '')
+                continue
+            if kind == 'raise':
+                continue
+            for (nm, a, b) in ref.MEMORY_MAP:
+                got = g.attrs[nm].attrs['_data'].items
+                if len(got) != b - a:
+                    bad = bad or (s, L, nm, 'the region has {} bytes '
+                                  'afterwards instead of {}'.format(
+                                      len(got), b - a))
+                    continue
+                lo, hi = max(s, a), min(e, b)
+                if lo >= hi:
+                    want_l = mem[nm]
+                else:
+                    want_l = mem[nm][:lo - a] + data[lo - s:hi - s] + \
+                        mem[nm][hi - a:]
+                if same(got, want_l):
+                    continue
+                for i in range(b - a):
+                    x, want = got[i], want_l[i]
+                    if x is want:
+                        continue
+                    xb = x if isinstance(x, BV) else BV.const(x, 8)
+                    if xb != want:
+                        bad = bad or (s, L, nm, 'byte 0x{:x} of the cart '
+                                      'holds {} instead of {}'.format(
+                                          a + i, xb, want))
+                        break
+    except AnalysisError as ex:
+        res.undecided('R-C18-map', Q, 'memmap', '{}; whole-method evaluation '
+                      'could not follow it either: {}'.format(
+                          why[:100], str(ex)[:100]), f.loc)
+        return
+    res.check(bad_reject is None, 'R-C18-reject', Q,
+              'rejects exactly the writes that pass 0x{:x}, before any '
+              'store (evaluated)'.format(total),
+              '{} (start, end) pairs'.format(n),
+              'write_cart_data(data of {} bytes, start_addr=0x{:x}) {}'.format(
+                  bad_reject[1], bad_reject[0],
+                  'raises ' + bad_reject[3] if bad_reject[2] == 'raise'
+                  else 'is accepted') if bad_reject else '', f.loc,
+              semantic=True)
+    res.check(bad is None, 'R-C18-slices', Q,
+              'the addressed bytes become the data, every other byte of '
+              'every region is unchanged (evaluated)',
+              '{} (start, end) pairs around every region bound, all region '
+              'and data bytes symbolic'.format(n),
+              'write_cart_data(data of {} bytes, start_addr=0x{:x}), region '
+              '{}: {}'.format(bad[1], bad[0], bad[2], bad[3]) if bad else '',
+              f.loc, semantic=True)
+
+
 def run(ctx, res):
     model = ctx.model
     f = model.func(Q)
@@ -295,7 +407,7 @@ def run(ctx, res):
     try:
         rows = extract_rows(ctx, f)
     except AnalysisError as e:
-        res.undecided('R-C18-map', Q, 'memmap', str(e), f.loc)
+        rule_evaluated(ctx, res, f, str(e))
         return
     rule_map(ctx, res, rows, f.node, f)
     rule_reject_dominates(ctx, res, f, rows)
